@@ -309,6 +309,32 @@ class Ctx(object):
         return [x[1] for x in walk(term) if x.tag in ('adapt', 'via')]
 
     @staticmethod
+    def shape_adapters(term):
+        """order/extent-changing adapters applied to the iterator *structure* of a term (zip / chain / map / enumerate ..),
+        not those buried in closure captures, call arguments or the fill events of an underlying vector"""
+        out = []
+        stack = [term]
+        seen = set()
+        while stack:
+            x = stack.pop()
+            if x.id in seen:
+                continue
+            seen.add(x.id)
+            k = x.tag
+            if k in ('adapt', 'via'):
+                out.append(x[1])
+                stack.append(x[2])
+            elif k == 'mut':
+                stack.append(x[1])
+            elif k in ('zip', 'chain', 'interleave'):
+                stack.extend([x[1], x[2]])
+            elif k in ('map', 'enumerate', 'flatten', 'once', 'repeat', 'elem'):
+                stack.append(x[1])
+            elif k == 'phi':
+                stack.extend(x.args)
+        return out
+
+    @staticmethod
     def mentions_field(term, name):
         return contains(term, lambda x: x.tag == 'field' and x[1] == name)
 
